@@ -209,7 +209,15 @@ class MonDirServer(DirServer):
 
     def open(self, path, flags, attr):
         self._fault("open")
-        return super().open(path, flags, attr)
+        h = super().open(path, flags, attr)
+        f = getattr(h, "readfile", None)
+        if f is not None and hasattr(f, "detach"):
+            # serve through the raw (unbuffered) file: a buffered Python file object in the *server application*
+            # would keep read-ahead of its own and return stale bytes after a size change made through the path,
+            # which is harness behaviour, not the library's
+            raw = f.detach()
+            h.readfile = h.writefile = raw
+        return h
 
     def list_folder(self, path):
         self._fault("list_folder")
